@@ -327,6 +327,12 @@ def helper_defs():
         Struct('Dy1', [Member('n', 'u8'), Member('x', 'u8', EXT, sizer='n')]),         # dynamic align 1
         Union('Un4', [(1, 'u8', 'a'), (2, 'u16', 'b')]),                              # size 8 align 4
         Union('Un8', [(1, 'u64', 'a'), (2, 'u8', 'b'), (3, 'Fx2', 'c')]),             # size 16 align 8
+        Struct('Fx12', [Member('a', 'u32'), Member('b', 'u32'), Member('c', 'u32')]),  # size 12 align 4
+        Union('Un12', [(1, 'u64', 'a'), (2, 'Fx12', 'b')]),                           # size 24 align 8: largest arm 4-aligned
+        Typedef('TDy4', 'Dy4'),                                                       # alias of a dynamic struct
+        Typedef('TFx2', 'Fx2'),                                                       # alias of a fixed struct
+        Struct('Gr1', [Member('x', 'u8'), Member('t', 'u8', GREEDY)]),                # unlimited align 1
+        Struct('Gr4', [Member('x', 'u32'), Member('t', 'u16', GREEDY)]),              # unlimited align 4
     ]
 
 
@@ -367,6 +373,9 @@ PALETTE = [
     ('bytes[3]', lambda n: [Member(n, 'byte', FIXED, 3)]),
     ('bytes<5>', lambda n: [Member(n, 'byte', LIMITED, 5)]),
     ('u16<@>', lambda n: [Member('n_' + n, 'u8'), Member(n, 'u16', EXT, sizer='n_' + n)]),
+    ('Un12', lambda n: [Member(n, 'Un12')]),
+    ('TDy4<>', lambda n: [Member(n, 'TDy4', DYNAMIC)]),
+    ('TFx2*', lambda n: [Member(n, 'TFx2', OPTIONAL)]),
 ]
 PALETTE_TAGS = [t for t, _ in PALETTE]
 PALETTE_MAP = dict(PALETTE)
@@ -377,6 +386,8 @@ GREEDY_TAILS = [
     ('Fx2<...>', lambda n: [Member(n, 'Fx2', GREEDY)]),
     ('bytes<...>', lambda n: [Member(n, 'byte', GREEDY)]),
     ('Dy4<...>', lambda n: [Member(n, 'Dy4', GREEDY)]),
+    ('Gr1', lambda n: [Member(n, 'Gr1')]),          # nested unlimited struct as the last member
+    ('Gr4', lambda n: [Member(n, 'Gr4')]),
 ]
 GREEDY_MAP = dict(GREEDY_TAILS)
 
@@ -430,8 +441,10 @@ def seq_schema(seqs, prefix='S', wrap=False):
                     tagmap[name + suffix] = list(tags) + [suffix]
             else:
                 s.add(Struct(name + "_WT", [Member('p', 'u8'), Member('w', name)]))
-                names.append(name + "_WT")
-                tagmap[name + "_WT"] = list(tags) + ["_WT"]
+                s.add(Struct(name + "_WT8", [Member('p', 'u64'), Member('q', 'u8'), Member('w', name)]))
+                for suffix in ("_WT", "_WT8"):
+                    names.append(name + suffix)
+                    tagmap[name + suffix] = list(tags) + [suffix]
     return s, names, tagmap
 
 
